@@ -14,6 +14,7 @@ import (
 	"sync"
 	"syscall"
 
+	"archive/zip"
 	"github.com/safing/portbase/database/record"
 	"github.com/safing/portbase/database/storage/fstree"
 	"github.com/safing/portbase/formats/dsd"
@@ -44,8 +45,9 @@ func (H) Tune(prop string, plan any, cfg *simrt.Config) {
 
 // FSPlan is one C17 workload case; all its crash points and error points are enumerated.
 type FSPlan struct {
-	Prim           string `json:"prim"` // writefile tempfile symlink createatomic copyatomic replaceatomic fstreeput
-	Dest           int    `json:"dest"` // 0 absent, 1 present, 2 present with other mode, 3 present read-only, 4 a symbolic link to a file with the old content
+	Prim           string `json:"prim"`           // writefile tempfile symlink createatomic copyatomic replaceatomic fstreeput
+	Many           bool   `json:"many,omitempty"` // unpackzip: two archives with the same file name and version below different directories, unpacked by one UnpackResources call
+	Dest           int    `json:"dest"`           // 0 absent, 1 present, 2 present with other mode, 3 present read-only, 4 a symbolic link to a file with the old content
 	OldSize        int    `json:"old_size"`
 	NewSize        int    `json:"new_size"`
 	Explicit       bool   `json:"explicit_tmp,omitempty"` // caller-specified temp dir
@@ -83,6 +85,7 @@ func (H) Generate(prop string, rng *rand.Rand, tier string) any {
 	if p.Prim == "unpackzip" {
 		p.Twin = rng.IntN(2) == 0
 		p.Corrupt = rng.IntN(2) == 0
+		p.Many = rng.IntN(3) == 0
 		p.Dest = 0
 	}
 	switch p.Prim {
@@ -364,6 +367,12 @@ func (H) Execute(prop string, plan any, rc *simkit.RunCtx) {
 			return
 		}
 	}
+	if p.Many && p.Prim == "unpackzip" && p.Dest == 0 {
+		if !manyUnpack(p, rc, setup, newData) {
+			e.cleanup()
+			return
+		}
+	}
 	if p.Corrupt && p.Prim == "unpackzip" && p.Dest == 0 {
 		if !corruptUnpack(p, rc, setup(), newData) {
 			e.cleanup()
@@ -572,6 +581,109 @@ func twinUnpack(p *FSPlan, rc *simkit.RunCtx, e *fsEnv, newData []byte, newState
 	if !ok || st != newState {
 		rc.Fail("C17.dest-fragment", "after two overlapping unpack calls the destination is missing or incomplete (unpackzip)", fmt.Sprintf("exists=%v errors: %v / %v", ok, errs[0], errs[1]))
 		return false
+	}
+	return true
+}
+
+// manyUnpack: two archives "pkg.zip" of the same version below linux/ and windows/, both on the auto-unpack list, unpacked
+// by one UnpackResources call while readers watch both destinations: each is absent or holds exactly the content of its
+// own archive at every instant, and both are complete afterwards.
+func manyUnpack(p *FSPlan, rc *simkit.RunCtx, setup func() *fsEnv, newData []byte) bool {
+	build := func(e *fsEnv) (*updater.ResourceRegistry, [2]string, error) {
+		reg := &updater.ResourceRegistry{Name: "sim", UpdateURLs: []string{"http://updates.sim/"}, Online: true, AutoUnpack: []string{"linux/pkg.zip", "windows/pkg.zip"}}
+		var dests [2]string
+		if err := reg.Initialize(utils.NewDirStructure(e.root, 0o755)); err != nil {
+			return nil, dests, err
+		}
+		for k, plat := range []string{"linux", "windows"} {
+			if err := os.MkdirAll(filepath.Join(e.root, plat), 0o755); err != nil {
+				return nil, dests, err
+			}
+			f, err := os.Create(filepath.Join(e.root, plat, "pkg_v1-0-0.zip"))
+			if err != nil {
+				return nil, dests, err
+			}
+			zw := zip.NewWriter(f)
+			for i := 0; i < 6; i++ {
+				w, err := zw.Create(fmt.Sprintf("%s-file%d.bin", plat, i))
+				if err != nil {
+					return nil, dests, err
+				}
+				_, _ = w.Write(append([]byte(fmt.Sprintf("%s entry %d ", plat, i)), newData...))
+			}
+			_ = zw.Close()
+			_ = f.Close()
+			if err := reg.AddResource(plat+"/pkg.zip", "1.0.0", nil, true, false, false); err != nil {
+				return nil, dests, err
+			}
+			dests[k] = filepath.Join(e.root, plat, "pkg_v1-0-0")
+		}
+		reg.SelectVersions()
+		return reg, dests, nil
+	}
+	// what each destination holds when its archive is unpacked on its own
+	e0 := setup()
+	reg0, d0, err := build(e0)
+	if err != nil {
+		rc.Fail("C17.harness", "multi-archive set-up failed", err.Error())
+		e0.cleanup()
+		return false
+	}
+	if err := reg0.UnpackResources(); err != nil {
+		rc.Fail("C17.fault-free-error", "UnpackResources failed without any injected fault", err.Error())
+		e0.cleanup()
+		return false
+	}
+	var want [2]string
+	for k := range d0 {
+		st, ok := dirState(d0[k])
+		if !ok {
+			rc.Fail("C17.fault-free-missing", "after a successful UnpackResources a destination does not exist", d0[k])
+			e0.cleanup()
+			return false
+		}
+		want[k] = st
+	}
+	e0.cleanup()
+	e := setup()
+	defer e.cleanup()
+	reg, dests, err := build(e)
+	if err != nil {
+		rc.Fail("C17.harness", "multi-archive set-up failed", err.Error())
+		return false
+	}
+	simfs.Begin(simfs.Plan{CrashAt: -1, ErrAt: -1, ShortAt: -1}, e.tmp)
+	stop := false
+	var rwg sync.WaitGroup
+	readerFail := ""
+	for r := 0; r < 1+p.Readers; r++ {
+		rwg.Add(1)
+		go func() {
+			defer rwg.Done()
+			for i := 0; i < 600 && !stop; i++ {
+				simrt.Yield("reader")
+				for k := range dests {
+					if st, ok := dirState(dests[k]); ok && st != want[k] && readerFail == "" {
+						readerFail = fmt.Sprintf("a concurrent reader observed an unpacked directory that does not hold exactly the content of its archive (%s)", filepath.Base(filepath.Dir(dests[k])))
+					}
+				}
+			}
+		}()
+	}
+	uerr := reg.UnpackResources()
+	stop = true
+	rwg.Wait()
+	_, _, _ = simfs.End()
+	rc.Probe("several-archives-unpacked-by-one-call")
+	if readerFail != "" {
+		rc.Fail("C17.reader-partial", readerFail, fmt.Sprintf("error: %v", uerr))
+		return false
+	}
+	for k := range dests {
+		if st, ok := dirState(dests[k]); !ok || st != want[k] {
+			rc.Fail("C17.dest-fragment", "after UnpackResources a destination is missing or does not hold exactly the content of its archive", fmt.Sprintf("%s exists=%v error: %v", dests[k], ok, uerr))
+			return false
+		}
 	}
 	return true
 }
@@ -788,15 +900,23 @@ func readState(p *FSPlan, e *fsEnv) (string, bool) {
 		return "link:" + t, true
 	}
 	if p.Prim == "unpackzip" {
-		if fi, err := os.Stat(e.dest); err != nil || !fi.IsDir() {
+		return dirState(e.dest)
+	}
+	return fileState(p, e)
+}
+
+// dirState describes an unpacked directory (names, sizes and content hashes of everything below it).
+func dirState(dest string) (string, bool) {
+	{
+		if fi, err := os.Stat(dest); err != nil || !fi.IsDir() {
 			return "", false
 		}
 		var sb strings.Builder
-		_ = filepath.Walk(e.dest, func(path string, info os.FileInfo, err error) error {
+		_ = filepath.Walk(dest, func(path string, info os.FileInfo, err error) error {
 			if err != nil {
 				return nil
 			}
-			rel, _ := filepath.Rel(e.dest, path)
+			rel, _ := filepath.Rel(dest, path)
 			if info.IsDir() {
 				fmt.Fprintf(&sb, "%s/;", rel)
 				return nil
@@ -807,6 +927,10 @@ func readState(p *FSPlan, e *fsEnv) (string, bool) {
 		})
 		return sb.String(), true
 	}
+}
+
+// fileState describes a single destination file (content or sampled content, and its mode class).
+func fileState(p *FSPlan, e *fsEnv) (string, bool) {
 	fi, serr := os.Stat(e.dest)
 	if serr == nil && fi.Size() > 512<<10 {
 		// a multi-megabyte file, read by several readers at every step of every fault case: sample it (size, head,
